@@ -79,6 +79,15 @@ def run(ctx):
     while work:
         f = work.pop()
         for n in ast.walk(f.node):
+            if isinstance(n, (ast.Name, ast.Attribute)) and isinstance(getattr(n, "ctx", None), ast.Load):
+                # a function handed over as a value (functools.partial(f, ..), reduce(f, ..), map(f, ..)) may be called
+                parts = dotted_parts(n)
+                r = ctx.prog.resolve_chain(f.module.name, parts) if parts and not (parts[0] in {a.arg for a in ast.walk(f.node) if isinstance(a, ast.arg)}) else None
+                if r is not None and r[0] == "func" and r[1].qualname not in seen_q and r[1].qualname.startswith("bits."):
+                    seen_q.add(r[1].qualname)
+                    nodes.append(r[1].node)
+                    work.append(r[1])
+                continue
             if not isinstance(n, ast.Call):
                 continue
             parts = dotted_parts(n.func)
